@@ -332,9 +332,7 @@ func (d *driver) settle() {
 			d.emit("FWake")
 			d.sig, d.flLoc = false, "seq.flusher.woken"
 		case d.flLoc == "none" && d.actLoc == "blocked-stop":
-			d.expect("act", "seq.act.flusherStopped")
-			d.emit("XStopped")
-			d.sig, d.actLoc = false, "seq.act.flusherStopped"
+			d.arrive("blocked-stop", d.anyAct())
 		default:
 			return
 		}
@@ -526,32 +524,66 @@ func (d *driver) afterWrite(failed bool) {
 	d.flLoc = p
 }
 
-func (d *driver) afterBatcherOrScan() {
-	p := d.expect("act", "st.scan.next", "seq.act.finishing")
+// arrive: the actualizer goroutine showed up at point p after leaving point from. What it did in
+// between is told by where it is now, not by where the harness expected it: a tree that orders the
+// actualizer's steps differently still yields a trace (one the model may refuse), not a dead harness.
+func (d *driver) arrive(from, p string) {
+	switch p {
+	case "seq.act.flusherCancelled":
+		d.emit("XStop")
+		d.cancel = true
+	case "seq.act.flusherStopped":
+		d.emit("XStopped")
+		d.sig = false
+	case "seq.act.cleared":
+		d.emit("XClear")
+		d.flLoc, d.cancel = "select", false
+	case "seq.batcher.overflow":
+		d.emit("XBatchWait")
+		d.sig = true
+	case "seq.batcher.between":
+		d.emit(fmt.Sprintf("XBatchOff %d", d.currentScanOffset()+1))
+	case "seq.batcher.done":
+		if from == "seq.batcher.between" {
+			d.emit("XBatchVals")
+		} else {
+			d.emit(fmt.Sprintf("XBatchOff %d", d.currentScanOffset()+1))
+		}
+	}
 	d.actLoc = p
 }
 
+// anyAct waits for the next point the actualizer goroutine parks at
+func (d *driver) anyAct() string {
+	if a, ok := d.in.early["act"]; ok {
+		delete(d.in.early, "act")
+		return a.point
+	}
+	for {
+		select {
+		case a := <-d.in.arrivals:
+			if a.role == "act" {
+				return a.point
+			}
+			if _, dup := d.in.early[a.role]; dup {
+				panic(fmt.Sprintf("waiting for the actualizer, got %s at %s twice", a.role, a.point))
+			}
+			d.in.early[a.role] = a
+		case <-time.After(8 * time.Second):
+			panic("timeout: waiting for the actualizer's next point")
+		}
+	}
+}
+
 func (d *driver) stepActualizer(m string) error {
-	switch d.actLoc {
-	case "seq.act.start":
-		d.release("act")
-		d.expect("act", "seq.act.flusherCancelled")
-		d.emit("XStop")
-		d.cancel = true
-		d.actLoc = "seq.act.flusherCancelled"
+	from := d.actLoc
+	switch from {
+	case "none", "blocked-stop", "":
+		return fmt.Errorf("actualizer cannot step from %q", from)
 	case "seq.act.flusherCancelled":
 		d.release("act")
-		d.actLoc = "blocked-stop" // settle() completes it when the flusher is gone
-	case "seq.act.flusherStopped":
-		d.release("act")
-		d.expect("act", "seq.act.cleared")
-		d.emit("XClear")
-		d.flLoc, d.cancel = "select", false
-		d.actLoc = "seq.act.cleared"
-	case "seq.act.cleared":
-		d.release("act")
-		d.expect("act", "st.readoff.enter")
-		d.actLoc = "st.readoff.enter"
+		d.actLoc = "blocked-stop" // it waits for the flusher to exit: settle() completes it when the flusher is gone
+		return nil
 	case "st.readoff.enter":
 		ok := m != "act:err"
 		d.in.readOffOK = ok
@@ -559,9 +591,6 @@ func (d *driver) stepActualizer(m string) error {
 		d.emit("XReadOff " + kit.Bool(ok))
 		if !ok {
 			d.errs++
-			d.expect("act", "st.readoff.enter")
-		} else {
-			d.afterBatcherOrScan()
 		}
 	case "st.scan.next":
 		fail := m == "act:err"
@@ -570,14 +599,6 @@ func (d *driver) stepActualizer(m string) error {
 		if fail {
 			d.errs++
 			d.emit("XScanErr")
-			d.afterBatcherOrScan()
-		} else {
-			p := d.expect("act", "seq.batcher.overflow", "seq.batcher.enter")
-			if p == "seq.batcher.overflow" {
-				d.emit("XBatchWait")
-				d.sig = true
-			}
-			d.actLoc = p
 		}
 	case "seq.batcher.overflow":
 		armed := d.clock.Armed()
@@ -587,34 +608,17 @@ func (d *driver) stepActualizer(m string) error {
 			time.Sleep(100 * time.Microsecond)
 		}
 		d.clock.Advance(5 * time.Millisecond)
-		p := d.expect("act", "seq.batcher.overflow", "seq.batcher.enter")
-		if p == "seq.batcher.overflow" {
-			d.emit("XBatchWait")
-			d.sig = true
-		}
-		d.actLoc = p
-	case "seq.batcher.enter":
-		d.release("act")
-		p := d.expect("act", "seq.batcher.between", "seq.batcher.done")
-		d.emit(fmt.Sprintf("XBatchOff %d", d.currentScanOffset()+1))
-		d.actLoc = p
-	case "seq.batcher.between":
-		d.release("act")
-		d.expect("act", "seq.batcher.done")
-		d.emit("XBatchVals")
-		d.actLoc = "seq.batcher.done"
-	case "seq.batcher.done":
-		d.release("act")
-		d.afterBatcherOrScan()
 	case "seq.act.finishing":
 		d.release("act")
 		d.expect("act", "seq.act.finished") // the in-progress flag is cleared now
 		d.emit("XDone")
 		d.release("act")
 		d.actLoc = "none"
+		return nil
 	default:
-		return fmt.Errorf("actualizer cannot step from %q", d.actLoc)
+		d.release("act")
 	}
+	d.arrive(from, d.anyAct())
 	return nil
 }
 
